@@ -392,7 +392,7 @@ def extra_phase(tier, master, facts, src, log):
             if f.get("kind") == "json_format" or (k + j) % 4 == 1:
                 o["file_names"] = ["legacy.json", "w0.ods"]  # a config in the old format usually still has its old name
             sweep.append({"property": PROP, "seed": c12case["seed"], "index": 2 * 10**9 + k * 1000 + j, "mode": "input_fault", "fault": f, "world": c12case["world"],
-                          "opts": o, "host": dict(gen.BASE_HOST, tty=(f["class"] == "cmdline" or (k + j) % 3 == 0)), "prestate": [], "swarm": c12case["swarm"],
+                          "opts": o, "host": dict(gen.BASE_HOST, tty=(f["class"] == "cmdline" or (k + j) % 3 == 0), desktop=(f["class"] == "cmdline" and (k + j) % 2 == 0) or (k + j) % 7 == 0), "prestate": [], "swarm": c12case["swarm"],
                           "strace": (k + j) % 5 == 0})  # usage errors on an interactive terminal: pagers and prompts live behind isatty()
     sweep_outs = engine.run_cases(PROP, sweep, src=src)
     for o in sweep_outs:
